@@ -107,6 +107,22 @@ Qed.
 
 Lemma vrels_length : forall n sg vs avs, vrels p q n sg vs avs -> List.length vs = List.length sg /\ List.length avs = List.length sg.
 Proof. intros n sg vs avs H. induction H; simpl; [auto | lia]. Qed.
+
+(* every evaluated argument is a needed variable of the context: its AxCut name is in scope *)
+Lemma args_scope : forall n need pi A G e ae,
+  erel p q n need pi A G e ae -> NoDup (cids G) ->
+  forall args vs, (forall b, In b args -> need (cbvar b)) -> omap (arg_val e) args = Some vs ->
+  forall a, In a args -> In (idn (pi (cbvar a))) A /\ exists b0, In b0 G /\ cbvar b0 = cbvar a.
+Proof.
+  intros n need pi A G e ae He Hnd.
+  induction args as [|a0 ar IH]; intros vs Hneed Hvs a Hin; [contradiction|].
+  cbn [omap] in Hvs. destruct (arg_val e a0) as [v|] eqn:Hv; [|discriminate]. cbn [obind] in Hvs.
+  destruct (omap (arg_val e) ar) as [vr|] eqn:Hvr; [|discriminate].
+  destruct Hin as [<-|Hin].
+  - destruct (erel_clookup p q _ _ _ _ _ _ _ _ _ He Hnd (arg_val_lookup _ _ _ Hv)) as (b0 & Hf & Hb & Hr).
+    apply flookup_in in Hf as [Hin0 _]. split; [apply Hr; apply Hneed; now left | eauto].
+  - eapply IH; eauto. intros b Hb. apply Hneed. now right.
+Qed.
 End Args.
 
 (* names of the AxCut side of an argument list *)
